@@ -174,14 +174,58 @@ class Kwargs(ast.NodeTransformer):
         return ast.Call(func=node.func, args=[], keywords=kws + node.keywords)
 
 
-TRANSFORMS = ["ret_tmp", "if_swap", "cmp_flip", "rename", "kwargs", "assign_tmp"]
+class UnpackIndex(ast.NodeTransformer):
+    """a, b = f(...)  ->  _lsa_u = f(...); a = _lsa_u[0]; b = _lsa_u[1]"""
+
+    def visit_FunctionDef(self, node):
+        self.generic_visit(node)
+        if uses_locals(node):
+            return node
+
+        class R(ast.NodeTransformer):
+            def visit_FunctionDef(s, n):
+                return n
+            visit_AsyncFunctionDef = visit_Lambda = visit_ClassDef = visit_FunctionDef
+
+            def visit_Assign(s, n):
+                if len(n.targets) == 1 and isinstance(n.targets[0], ast.Tuple) \
+                        and isinstance(n.value, ast.Call) \
+                        and all(isinstance(e, ast.Name) for e in n.targets[0].elts):
+                    out = [ast.Assign(targets=[ast.Name(id="_lsa_u", ctx=ast.Store())],
+                                      value=n.value)]
+                    for i, e in enumerate(n.targets[0].elts):
+                        out.append(ast.Assign(
+                            targets=[ast.Name(id=e.id, ctx=ast.Store())],
+                            value=ast.Subscript(value=ast.Name(id="_lsa_u", ctx=ast.Load()),
+                                                slice=ast.Constant(i), ctx=ast.Load())))
+                    return out
+                return n
+        node.body = [x for st in node.body for x in _aslist(R().visit(st))]
+        return node
+
+
+class AndSplit(ast.NodeTransformer):
+    """if a and b: X   (no else)  ->  if a:\n    if b: X"""
+
+    def visit_If(self, node):
+        self.generic_visit(node)
+        if not node.orelse and isinstance(node.test, ast.BoolOp) \
+                and isinstance(node.test.op, ast.And) and len(node.test.values) == 2:
+            a, b = node.test.values
+            return ast.If(test=a, body=[ast.If(test=b, body=node.body, orelse=[])], orelse=[])
+        return node
+
+
+TRANSFORMS = ["ret_tmp", "if_swap", "cmp_flip", "rename", "kwargs", "assign_tmp",
+              "unpack_index", "and_split"]
 
 
 def apply(name, repo, root):
     for mi in repo.modules.values():
         tree = ast.parse(mi.source)
         t = {"ret_tmp": RetTmp, "if_swap": IfSwap, "cmp_flip": CmpFlip, "rename": Rename,
-             "assign_tmp": AssignTmp}.get(name)
+             "assign_tmp": AssignTmp, "unpack_index": UnpackIndex,
+             "and_split": AndSplit}.get(name)
         tree = (Kwargs(repo, mi) if name == "kwargs" else t()).visit(tree)
         ast.fix_missing_locations(tree)
         out = ast.unparse(tree)
